@@ -155,8 +155,23 @@ template <class C> struct Ctx {
     g_fault_at = 0;
     BuildK<C, C::kind>::run(*pv, m, cls);
     vf_assume(g_bad == 0 && g_abad == 0);
+#ifdef VF_RELOC
+    relocate();
+#endif
     snap();
   }
+#ifdef VF_RELOC
+  // C14: the container declares itself trivially relocatable: move it to another address by a raw byte copy and
+  // abandon (poison) the source; everything that follows runs on the copy.
+  alignas(16) uint8_t buf2[sizeof(V)];
+  void relocate() {
+    static_assert(amc::is_trivially_relocatable<V>::value, "VF_RELOC requires a container that claims the trait");
+    std::memcpy(buf2, buf, sizeof(V));
+    uint8_t pat = nd8();
+    std::memset(buf, pat, sizeof(V));
+    pv = reinterpret_cast<V *>(buf2);
+  }
+#endif
   void snap() {
     m0 = m;
     size0 = static_cast<uint8_t>(pv->size()); cap0 = static_cast<uint8_t>(pv->capacity());
@@ -174,6 +189,8 @@ template <class C> struct Ctx {
     if (C::kind == KIND_SMALL) {
       if (is_inline()) {
         vf_assert(cp == C::N, 5002);                      // inline <=> capacity()==N
+      } else if (cp == 0) {
+        vf_assert(w.data() == nullptr, 6002);             // adopted the (absent) storage of an empty amc::vector
       } else {
         int k = blk_find(w.data());
         vf_assert(k >= 0 && g_blk_n[k >= 0 ? k : 0] == cp * sizeof(E), 6002);   // heap: data() is a live block of capacity() elements
@@ -194,6 +211,16 @@ template <class C> struct Ctx {
       if (i >= exp.n || i >= w.size()) break;
       vf_assert(Elem<E>::val(d[i]) == exp.a[i], 1003);
       vf_assert(Elem<E>::sound(d[i]), 2002);               // visible element alive, not moved-from, at its own address
+    }
+  }
+  // same comparison under another property's assertion ids (BASE+1 size, BASE+3 values)
+  template <unsigned BASE> void check_contents_as(const Seq &exp) {
+    V &w = *pv;
+    vf_assert(w.size() == exp.n, BASE + 1);
+    const E *d = w.data();
+    for (unsigned i = 0; i < VF_MAXM; ++i) {
+      if (i >= exp.n || i >= w.size()) break;
+      vf_assert(Elem<E>::val(d[i]) == exp.a[i] && Elem<E>::sound(d[i]), BASE + 3);
     }
   }
   // extra = number of element objects legitimately alive outside the container (temporaries held by the harness)
